@@ -3,6 +3,7 @@ package main
 // Type-based modifies inference over the module's SSA.
 
 import (
+	"fmt"
 	"go/token"
 	"go/types"
 	"strings"
@@ -24,6 +25,46 @@ type modSet struct {
 	all   bool
 	allocs bool
 	declared []string
+	big   bool // all is set only because the frame is large; descs is still exact
+}
+
+// keyNames lists the heap keys of the frame without registering them in a context.
+func (m *modSet) keyNames() map[string]bool {
+	out := map[string]bool{}
+	for _, d := range m.descs {
+		switch d.kind {
+		case 'F':
+			st := d.t.Underlying().(*types.Struct)
+			out[fmt.Sprintf("F:%s#%d.%s", typeKey(d.t), d.field, st.Field(d.field).Name())] = true
+		case 'E':
+			out["E:"+typeKey(d.t)] = true
+		case 'B':
+			out["B:"+typeKey(d.t)] = true
+		case 'M':
+			for _, p := range []string{"MH:", "MV:", "ML:"} {
+				out[p+typeKey(d.t)] = true
+			}
+		case 'G':
+			out["G:"+d.global.Pkg.Pkg.Path()+"."+d.global.Name()] = true
+		}
+	}
+	return out
+}
+
+// havocBig havocs the whole heap except the keys already known to the context that lie outside the frame.
+func (ex *Exec) havocBig(m *modSet) {
+	c := ex.c
+	names := m.keyNames()
+	keep := map[string]Term{}
+	for k := range c.heapSorts {
+		if !names[k] {
+			keep[k] = c.heapGet(ex.st, k)
+		}
+	}
+	c.heapHavocAll(ex.st)
+	for k, t := range keep {
+		ex.st.heaps[k] = t
+	}
 }
 
 func newModSet() *modSet {
@@ -81,8 +122,10 @@ func (m *modSet) union(o *modSet) {
 // register materialises the heap keys in a ctx.
 func (m *modSet) register(c *Ctx) *modSet {
 	m.keys = map[string]bool{}
-	if len(m.descs) > 48 {
-		// a very large inferred frame is treated as "everything" (sound, and keeps the VC small)
+	if len(m.descs) > 48 && !m.all {
+		// A very large inferred frame is not materialised key by key (that would blow up the VC): the caller
+		// havocs everything except the keys it already knows that are outside the frame (see havocBig).
+		m.big = true
 		m.all = true
 		return m
 	}
@@ -272,6 +315,9 @@ func (w *World) callMods(c *Ctx, m *modSet, cc *ssa.CallCommon, ex *Exec, depth 
 			}
 		}
 	}
+	if callee == nil && w.isCancelCall(cc.Value) {
+		return
+	}
 	if callee == nil {
 		m.all = true
 		return
@@ -283,7 +329,7 @@ func (w *World) callMods(c *Ctx, m *modSet, cc *ssa.CallCommon, ex *Exec, depth 
 		w.contractMods(m, ct, cc.Args, callee)
 		return
 	}
-	if isPureExternal(callee) {
+	if isPureExternal(callee) || isLogFunc(callee) {
 		return
 	}
 	switch calleeOriginName(callee) {
@@ -300,6 +346,9 @@ func (w *World) callMods(c *Ctx, m *modSet, cc *ssa.CallCommon, ex *Exec, depth 
 		}
 	}
 	pp := funcPkgPath(callee)
+	if strings.HasPrefix(pp, modulePath) && len(callee.Blocks) == 0 && callee.Pkg != nil {
+		callee.Pkg.Build()
+	}
 	if !strings.HasPrefix(pp, modulePath) || len(callee.Blocks) == 0 {
 		externalArgMods(m, cc.Args)
 		return
